@@ -87,6 +87,46 @@ theorem unOpWords_pointwise (op : Nat → Nat) (f : Bool → Bool)
   have a1 : lo + 64 * (i / 64) + i % 64 = lo + i := by omega
   simp [hm, hx, hi, a1]
 
+/-- **Counting** (`count_set_bits_offset`, `UnalignedBitChunk::count_ones`-style: sum of the
+popcounts of the padded chunk words) equals the number of `true`s of the logical sequence —
+the zero padding of the remainder word never contributes. -/
+theorem countSetBits_eq (buf off len : Nat) :
+    countSetBits buf off len = countTrue (bitsOf buf off len) := by
+  have hbo : off % 8 < 8 := Nat.mod_lt _ (by decide)
+  have hoff : 8 * (off / 8) + off % 8 = off := by omega
+  have hspec : countTrue (bitsOf buf off len) = cnt (fun i => buf.testBit (off + i)) len := by
+    unfold countTrue bitsOf cnt
+    rw [List.filter_map, List.length_map]
+    rfl
+  rw [hspec]
+  unfold countSetBits iterPadded
+  simp only [List.map_append, List.sum_append, List.map_cons, List.map_nil, List.sum_cons, List.sum_nil,
+    Nat.add_zero]
+  rw [sum_full (fun i => buf.testBit (off + i))]
+  · rw [cnt_split (fun i => buf.testBit (off + i)) (64 * (len / 64)) len (by omega)]
+    have hr : len - 64 * (len / 64) = len % 64 := by omega
+    rw [hr]
+    congr 1
+    rw [popcount_eq_cnt, cnt_split _ (len % 64) 64 (by omega)]
+    have z : cnt (fun j => (remainderBits (buf >>> (8 * (off / 8))) (off % 8) (len / 64) (len % 64)).testBit (len % 64 + j))
+        (64 - len % 64) = 0 := by
+      rw [← cnt_false (64 - len % 64)]
+      apply cnt_congr
+      intro i _
+      rw [testBit_remainderBits _ _ _ _ _ hbo (Nat.mod_lt _ (by decide))]
+      have : ¬ (len % 64 + i < len % 64) := by omega
+      simp [this]
+    rw [z, Nat.add_zero]
+    apply cnt_congr
+    intro i hi
+    rw [testBit_remainderBits _ _ _ _ _ hbo (Nat.mod_lt _ (by decide)), Nat.testBit_shiftRight]
+    have a2 : 8 * (off / 8) + (64 * (len / 64) + off % 8 + i) = off + (64 * (len / 64) + i) := by omega
+    simp [hi, a2]
+  · intro k j hj
+    rw [testBit_chunkAt _ _ _ _ hbo, Nat.testBit_shiftRight]
+    have a2 : 8 * (off / 8) + (64 * k + off % 8 + j) = off + (64 * k + j) := by omega
+    simp [hj, a2]
+
 /-- the four word operations used by `buffer_bin_{and,or,xor,and_not}` are bitwise -/
 theorem and_bitwise (a b j : Nat) : (a &&& b).testBit j = (a.testBit j && b.testBit j) := Nat.testBit_and ..
 theorem or_bitwise (a b j : Nat) : (a ||| b).testBit j = (a.testBit j || b.testBit j) := Nat.testBit_or ..
